@@ -125,10 +125,15 @@ func traceOf(p *ptn.PTN) string {
 	var w []string
 	it := p.Iterator()
 	limit := len(p.Ops) + 3
+	// positions handed out by Position() are kept and looked at again after the loop
+	var kept []*tak.Position
+	var keptDump []string
 	for it.Next() {
 		pos := "nil"
 		if it.Position() != nil {
 			pos = dumpPos(it.Position())
+			kept = append(kept, it.Position())
+			keptDump = append(keptDump, pos+" "+absDump(it.Position()))
 		}
 		w = append(w, fmt.Sprintf("T:%d:%s:%s:%s", it.PTNMove(), encMove(it.Move()), encMove(it.PeekMove()), pos))
 		limit--
@@ -142,6 +147,14 @@ func traceOf(p *ptn.PTN) string {
 	} else {
 		w = append(w, "F:ok")
 	}
+	r := "R:kept"
+	for i, q := range kept {
+		if dumpPos(q)+" "+absDump(q) != keptDump[i] {
+			r = fmt.Sprintf("R:changed@%d", i)
+			break
+		}
+	}
+	w = append(w, r)
 	return strings.Join(w, " ")
 }
 
